@@ -158,6 +158,45 @@ def asciiIgnore (s : Str) : Str := s.filter fun c => c.toNat < 128
 /-- `secure_filename` with the NFKD normalisation as an opaque parameter -/
 def secureFilename (nfkd : Str → Str) (s : Str) : Str := secureAscii (asciiIgnore (nfkd s))
 
+/-! ### the platform parameters of `secure_filename`: separators and the Windows device-file branch
+
+`secureAsciiWith seps nt` is `secure_filename` after the Unicode fold with `os.sep / os.path.altsep`
+(`seps`) and `os.name == "nt"` (`nt`) as parameters; `secureAscii` is its instance for the generating
+platform (`secureAsciiWith_here`, Lemmas/PathsNt.lean). -/
+
+/-- `str.upper()` on one ASCII character (table `Gen.Paths.upperAscii`); other characters unchanged -/
+def upperChar (c : Char) : Char :=
+  if 'a'.toNat ≤ c.toNat ∧ c.toNat ≤ 'z'.toNat then Char.ofNat (c.toNat - 32) else c
+
+/-- `filename.split(".")[0]` -/
+def beforeDot (s : Str) : Str := s.takeWhile (· != '.')
+
+/-- `filename.split(".")[0].upper() in _windows_device_files` -/
+def isDevice (s : Str) : Bool :=
+  Gen.Paths.windowsDeviceFiles.any fun d => d.toList == (beforeDot s).map upperChar
+
+/-- `for sep in os.sep, os.path.altsep: if sep: filename = filename.replace(sep, " ")` -/
+def replaceSepsWith (seps : List Char) (s : Str) : Str :=
+  s.map fun c => if seps.contains c then ' ' else c
+
+/-- `secure_filename` up to (not including) the device-file branch -/
+def secureBase (seps : List Char) (s : Str) : Str :=
+  stripOf Gen.Paths.stripChars
+    ((joinWith Gen.Paths.joinChars (pyWords (replaceSepsWith seps s))).filter fun c => !stripped c)
+
+/-- `secure_filename` from the point where the name is ASCII, for any platform: `seps` = the truthy
+ones of `os.sep, os.path.altsep`; `nt` = `os.name == "nt"` -/
+def secureAsciiWith (seps : List Char) (nt : Bool) (s : Str) : Str :=
+  let r := secureBase seps s
+  if nt && !r.isEmpty && isDevice r then '_' :: r else r
+
+/-- `secure_filename` for any platform with the NFKD normalisation as an opaque parameter -/
+def secureFilenameWith (seps : List Char) (nt : Bool) (nfkd : Str → Str) (s : Str) : Str :=
+  secureAsciiWith seps nt (asciiIgnore (nfkd s))
+
+/-- `posixpath.basename` (what follows the last `/`) -/
+def basename (p : Str) : Str := (splitSep p).getLastD []
+
 end Wz.Paths
 
 namespace Wz.Paths
